@@ -7,3 +7,4 @@ import TlxVerif.Props.C10
 #print axioms TlxVerif.C10.pool_at_rest_busy
 #print axioms TlxVerif.C10.pool_at_rest_waiter
 #print axioms TlxVerif.C10.pool_at_rest_main
+#print axioms TlxVerif.C10.pool_idle_count
